@@ -37,6 +37,16 @@ var concInputs = []interface{}{
 	[]int16{-200, 0, 32767},
 	map[string]string{"a": "b"},
 	[]concInner{{A: 1}, {A: 2}},
+	// strings and keys that need every kind of JSON escape (generic \u00XX with different
+	// digits, short escapes, HTML escapes, multi-byte runes, invalid UTF-8), floats of every
+	// formatting path, wide integers: scratch buffers of the encoders
+	map[string]string{"k\x01": "a\x02b", "<": ">&\x1f"},
+	[]string{"\x00", "\x1e\x1d", "q\"\\\n\r\t", "é€😀", "\xff\xfe", "<script>&amp;</script>", "\u2028\u2029"},
+	[]float64{1e21, 1e-7, 0.1, -0.0, 123456789.125, 5e-324, 1.7976931348623157e308},
+	[]float32{3.4028235e38, 1e-45, 0.3},
+	[]uint64{0, 255, 65535, 4294967295, 18446744073709551615},
+	[]int64{-1, -129, -32769, -2147483649, -9223372036854775808},
+	concOuter{Name: "\x03\x04", In: concInner{A: 9, B: []string{"\x05"}, C: map[string]uint16{"\x06": 1}}, Any: []interface{}{"\x07", int8(-8)}},
 }
 
 type codec struct {
